@@ -36,6 +36,7 @@ import Proofs.ResolverStaticMapCheck
 import Proofs.ResolverStaticMapGCheck
 import Proofs.ResolverStaticTreeCheck
 import Proofs.ResolverStaticDisCheck
+import Proofs.ResolverStaticRun
 import Proofs.DataflowApprox
 import Proofs.ResolverStaticEvalR
 import Proofs.ResolverStaticExample
@@ -834,6 +835,83 @@ example :
     ((twoPhaseT exDis exNm exDisStore).2.find? fun i =>
         i.key == ⟨["TOP", "INNER", "W2"], [("INNER", .i 1)]⟩).map
       (fun i => i.args.matches (.obj [("x", .null), ("p", .null)])) = some true := by decide
+
+/-! ### map calls of run-time size -/
+
+/--
+THE REFINEMENT WITH ARRAY-MODE MAP CALLS OF RUN-TIME SIZE (the split sources are references; stages
+and pipelines, nested in each other and in statically sized map calls), next to everything of
+`resolver_refines_den_disabled_partial`, modulo `dnull ↦ null`.  The static phase resolves the
+outputs of such a call to a `merge` node and the run-time phase enumerates its elements from the
+index sets `ρ.idx` the run recorded.  GIVEN about those: `hidx` (decidable: checked along the forks
+that exist) they are the index sets of the collections the calls were split over, and not empty;
+`hloc` they depend only on the forks of the mapped calls around the call.
+
+NOT COVERED: typed-map mode; an empty / null source (den: `dnull` and optional instances); a callee
+that returns its split input (the cancelling `merge` of `merge_split_cancel_sound`); a source that
+is an element of a split over a STATICALLY sized call (the compiler then knows the size per fork);
+map calls in lockstep over the merged output of another map call.
+FULL STATEMENT aimed at: the same for every well-typed program.
+-/
+theorem resolver_refines_den_runtime_partial (P : Program) (nm : List String → String) (O : Oracle)
+    (ρ : Store) (hw : WellTypedE P) (hfix : NarrowFix P.table P.nfuel) (hext : StoreExt ρ)
+    (hO : OracleClean O)
+    (hρ : ∀ n ∈ flattenTList [] (staticProgramT P nm).2, StoreAtNode nm O ρ n)
+    (hok : treeOkPList [] (staticProgramT P nm).2 = true)
+    (hidx : idxOkTList P.table P.nfuel ρ [] (staticProgramT P nm).2 = true)
+    (hloc : ∀ o ∈ subROccList [] (staticProgramT P nm).2, IdxLocal ρ o.1 o.2.2) :
+    eraseRun (den P O) = twoPhaseT P nm ρ :=
+  twoPhaseR_eq_den_F P hw P.nfuel hfix nm O hO ρ hext ⟨hρ, hok, hidx, hloc⟩
+
+/-- … with DECIDABLE hypotheses, for the store built from the recorded outs `O` and the recorded
+index sets `I` of the run (`h6`: the run-time sized map calls have distinct call ids — the index sets
+of the model's store are keyed by call id). -/
+theorem resolver_refines_den_runtime_checked (P : Program) (nm : List String → String) (O : Oracle)
+    (I : IdxRec)
+    (h1 : wellTypedEB P = true) (h2 : acyclicB P.table = true)
+    (h3 : treeOkPList [] (staticProgramT P nm).2 = true)
+    (h4 : ((flattenTList [] (staticProgramT P nm).2).map fun n => nm n.path).Nodup)
+    (h5 : ∀ k v, O k = some v → J.clean v = true)
+    (h6 : ((subROccList [] (staticProgramT P nm).2).map (·.1)).Nodup)
+    (h7 : idxOkTList P.table P.nfuel
+      (storeOfRun nm (flattenTList [] (staticProgramT P nm).2) (subROccList [] (staticProgramT P nm).2) O I) []
+      (staticProgramT P nm).2 = true) :
+    eraseRun (den P O)
+      = twoPhaseT P nm
+          (storeOfRun nm (flattenTList [] (staticProgramT P nm).2) (subROccList [] (staticProgramT P nm).2) O I) :=
+  twoPhaseR_eq_den_F P (wellTypedEB_sound P h1) P.nfuel (narrowFix_of_acyclicB P.table h2) nm O h5 _
+    (storeOfRun_ext nm _ _ O I)
+    ⟨storeOfRun_ok nm _ _ O I h4, h3, h7, storeOfRun_local nm _ _ O I h6⟩
+
+/-- the fragment of the statically sized theorems is inside this one: a call graph without run-time
+sized calls needs nothing about index sets -/
+theorem runtime_fragment_extends_static (st : StructTable) (nf : Nat) (ρ : Store) :
+    ∀ (ts : List STree) (above : List String) (f : ForkAssign), treeOkList above ts = true →
+      treeOkPList above ts = true ∧ idxOkTList st nf ρ f ts = true ∧ ∀ dims, subROccList dims ts = [] :=
+  treeOk_implies_P st nf ρ
+
+/-- non-vacuity: a pipeline mapped over the array output of a stage, with a nested map call over an
+array output of a stage of its own fork, passes the checks for the recorded index sets … -/
+example : wellTypedEB exRun = true ∧ acyclicB exRun.table = true ∧
+    treeOkPList [] (staticProgramT exRun exNm).2 = true ∧
+    treeOkList [] (staticProgramT exRun exNm).2 = false ∧
+    ((flattenTList [] (staticProgramT exRun exNm).2).map fun n => exNm n.path).Nodup ∧
+    ((subROccList [] (staticProgramT exRun exNm).2).map (·.1)).Nodup ∧
+    idxOkTList exRun.table exRun.nfuel exRunStore [] (staticProgramT exRun exNm).2 = true := by decide
+
+/-- … 1 + 3·2 + (1 + 2 + 3) + 1 instances; the nested call's outputs arrive as a ragged array of arrays;
+the second nested instance of fork 2 receives element 1 of `zs` of ITS fork and the split value of the
+outer call -/
+example :
+    (twoPhaseT exRun exNm exRunStore).2.length = 14 ∧
+    (twoPhaseT exRun exNm exRunStore).1.matches
+      (.obj [("ys", .arr [.atom "10", .atom "11", .atom "12"]),
+             ("yss", .arr [.arr [.atom "1000"], .arr [.atom "1010", .atom "1011"],
+                           .arr [.atom "1020", .atom "1021", .atom "1022"]]),
+             ("r", .atom "99")]) = true ∧
+    ((twoPhaseT exRun exNm exRunStore).2.find? fun i =>
+        i.key == ⟨["TOP", "INNER", "W2"], [("INNER", .i 2), ("W2", .i 1)]⟩).map
+      (fun i => i.args.matches (.obj [("x", .atom "201"), ("k", .atom "7")])) = some true := by decide
 
 /-- non-vacuity: a map call of a stage over two array literals of length 3 (constants, a pipeline
 input, upstream outputs, a struct literal next to references that are narrowed WIDE → PAIR),
